@@ -128,6 +128,18 @@ func VerifHarness_C09_Native() {
 	c, _ = verifDo(h, "POST", string(good))
 	verifAssert(c == 200, "a later valid request is still answered with 200")
 
+	// after valid requests: a document that lacks a key is still undecodable (nothing of the earlier requests fills the gap)
+	for _, key := range []string{"preRoot", "postRoot", "inputHash", "merkleProofs", "identityCommitments"} {
+		var m map[string]json.RawMessage
+		json.Unmarshal(good, &m)
+		delete(m, key)
+		b, _ := json.Marshal(m)
+		verifDo(h, "POST", string(good))
+		c, body := verifDo(h, "POST", string(b))
+		okc := c == 400 && (verifCode(body) == "malformed_body" || ((key == "merkleProofs" || key == "identityCommitments") && verifCode(body) == "proving_error"))
+		verifAssert(okc, "the decoded parameters are determined by the request body alone (nothing of an earlier request survives in a reused decoding target)")
+	}
+
 	// a request that is already accepted (body half sent) when a graceful stop begins is still answered by the same table
 	conn, err := net.Dial("tcp", verifLastAddr)
 	if err != nil {
